@@ -18,7 +18,7 @@ def wl_protocol(ctx, config):
     r = ctx.call("ctx_create", 1, config=config); alt = r.i(0)
     r = ctx.call("ctx_set_compress", 1, config=config, c=alt)
     ctx.check(r is not None and r.i(0) == 1, "ctx_set_compress:correct_function_refused", repr(r), config)
-    for it in range(ctx.n(1200, 30000)):
+    for it in ctx.iters(1200, 30000):
         d = pools.scalar(rng, 0.25) if it % 11 == 0 else pools.valid_seckey(rng, 0.25); sk = b32(d); valid = 0 < d < n
         msg = pools.msg32(rng, 0.4); rho = pools.msg32(rng, 0.3)
         cs, ch = (0, 0) if it % 4 == 0 else ((alt, 0) if it % 4 == 1 else ((0, alt) if it % 4 == 2 else (alt, alt)))  # signer ctx, host ctx
@@ -104,7 +104,7 @@ def alt_calls(ctx, config):
 
 def wl_openings(ctx, config):
     rng = ctx.rng
-    for it in range(ctx.n(300, 8000)):
+    for it in ctx.iters(300, 8000):
         pre = rng.choice((2, 3, 2, 3, 0, 4, 6, 7, 255)); x = pools.field(rng)
         if it % 3 == 0: x = mulG(rng.randrange(1, n))[0]
         s = bytes([pre]) + b32(x)
